@@ -656,7 +656,7 @@ def fmt_history(procs, st=None, c=None, stops=None) -> str:
     for r in procs:
         if "failed" in r:
             return "err LoadFailed"
-        gs += [[r["start"], len(r["records"]), r["latest"], r["last_epoch"]], toy.fr_pairs(r["w"]),
+        gs += [[r["start"], len(r["records"]), r["latest"], r["last_epoch"], r["scaler"]], toy.fr_pairs(r["w"]),
                toy.fr_pairs([lr for _, lr in r["records"]])]
     return "ok " + " | ".join(ints(g) for g in gs)
 
@@ -685,9 +685,11 @@ def check_history(c, stops, procs=None):
                 return (f"resume-differs-{kinds}", f"after stops {stops}: iteration {it} of process {i} (started at "
                         f"{r['start']}) gives w={w} lr={lr}; the uninterrupted run w={fw} lr={flr}")
     last = procs[-1]
-    if last["w"] != full["w"] or last["last_epoch"] != full["last_epoch"] or not _state_equal(last["opt_state"], full["opt_state"]):
+    if last["w"] != full["w"] or last["last_epoch"] != full["last_epoch"] or not _state_equal(last["opt_state"], full["opt_state"]) \
+            or last["scaler"] != full["scaler"]:
         return (f"resume-differs-{kinds}", f"after stops {stops} the final state differs from the uninterrupted run: "
-                f"w {last['w']} vs {full['w']}, last_epoch {last['last_epoch']} vs {full['last_epoch']}")
+                f"w {last['w']} vs {full['w']}, last_epoch {last['last_epoch']} vs {full['last_epoch']}, "
+                f"scaler state {last['scaler']} vs {full['scaler']}")
     return None
 
 
